@@ -113,4 +113,5 @@ def run(col, configs, tier):
         guarded(col, X.rule_lossy_independent_shortcuts, facts)
         guarded(col, X.rule_lossy_marker, facts)
         guarded(col, X.rule_lossy_rounds, facts)
+        guarded(col, X.rule_lossy_only_removes_work, facts)
         guarded(col, X.rule_reparse_skips_zeros, facts)
